@@ -25,10 +25,27 @@ func VerifC15Drop() {
 	db := w.db
 	pos0 := db.Pos()
 	// leftovers SQLite may still have around
-	if rt.Choose("leftovers", 2) == 1 {
+	switch rt.Choose("leftovers", 3) {
+	case 1:
 		must(os.WriteFile(db.JournalPath(), make([]byte, 28), 0o666))
 		must(os.WriteFile(db.WALPath(), nil, 0o666))
 		must(os.WriteFile(db.SHMPath(), make([]byte, 64), 0o666))
+	case 2:
+		// a connection is in the middle of a rollback-journal transaction: journal on disk and a modified,
+		// uncommitted page already written to the database file (a cache spill)
+		if wal {
+			rt.Assume(false)
+		}
+		jf, jerr := db.CreateJournal()
+		must(jerr)
+		must(db.WriteJournalAt(ctx, jf, verifJournalHeader(1, 7, uint32(n0)), 0, 1))
+		must(db.WriteJournalAt(ctx, jf, verifJournalRecord(1, img0[0], 7), 512, 1))
+		dbf, oerr := db.OpenDatabase(ctx)
+		must(oerr)
+		spilled := rt.Bytes("spilled", verifP)
+		verifHeaderPage(spilled, uint32(n0), false)
+		must(db.WriteDatabaseAt(ctx, dbf, spilled, 0, 1))
+		rt.Check(db.Pos() == pos0, "harness: the open transaction has not been committed")
 	}
 	if rt.Symbolic() {
 		rt.FSLog, rt.FSLogOn = nil, true
